@@ -76,9 +76,15 @@ CallEnd ==
   /\ stamp' = [u \in Unit |-> IF u \in Todo THEN clock + 1 ELSE stamp[u]]
   /\ last' = [op |-> "call", out |-> "complete", seeded |-> Todo]
   /\ clock' = clock + 1
+\* the reseed file is removed (by hand, to force a new pass; or --reseed-file is used for the first time next to a
+\* progress file of earlier runs): the next call starts a new pass, whatever the progress file says
+DeleteF ==
+  /\ F # 0
+  /\ F' = 0 /\ last' = [NoCall EXCEPT !.op = "delete"]
+  /\ UNCHANGED <<P, stamp, clock, started>>
 Tick(d) == /\ clock' = clock + d /\ last' = [NoCall EXCEPT !.op = "tick"] /\ UNCHANGED <<F, P, stamp, started>>
 
-Next == CallNoNeed \/ CallError \/ CallEnd \/ (\E k \in 0 .. N - 1 : CallStop(k)) \/ (\E d \in {1, Interval} : Tick(d))
+Next == CallNoNeed \/ CallError \/ CallEnd \/ (\E k \in 0 .. N - 1 : CallStop(k)) \/ (\E d \in {1, Interval} : Tick(d)) \/ DeleteF
 Spec == Init /\ [][Next]_vars
 Bound == clock <= MaxClock                      \* (state constraint for the model checker)
 
@@ -89,7 +95,7 @@ NoNeedOnlyAfterCompletion == [][last'.out = "noneed" => \A u \in Unit : stamp[u]
 NoProgressMeansComplete == (F # 0 /\ ~P) => ~started
 \* the start of a pass does not move while the pass is under way and known to be (P): tiles seeded earlier in the
 \* pass stay up to date
-PassStartStable == [][(P /\ last'.op = "call") => F' = F]_vars
+PassStartStable == [][(P /\ F # 0 /\ last'.op = "call") => F' = F]_vars
 \* a call that runs to the end leaves everything newer than F and no progress file
 CompleteIsComplete == [][last'.out = "complete" => (~P' /\ \A u \in Unit : stamp'[u] > F')]_vars
 \* nothing that is newer than the start of the pass is seeded again
